@@ -170,6 +170,7 @@ def instrument_backend(be, rec, sim_time=None):
         e = rec.add("be.resume", trial_id=trial_id, new_config=None if new_config is None else dict(new_config), t_call=t0)
         trial = orig(trial_id=trial_id, new_config=new_config)
         e["t_ret"] = now()
+        e["ok"] = True
         return trial
 
     def pause_trial(orig, trial_id, result=None):
@@ -244,7 +245,7 @@ def make_monitor(rec, t, clock, outside_time=True, sim_time=None, max_loops=2000
 
             def recording(status):
                 v = crit(status)
-                rec.add("crit", value=bool(v), t=None if sim_time is None else sim_time())
+                rec.add("crit", value=bool(v), t=None if sim_time is None else sim_time(), clock=clock.now)
                 return v
 
             tuner.stop_criterion = recording
